@@ -283,6 +283,10 @@ POSITIONS = [
     (". = . + K", None), (".align K", "pow2"), ("K, K + 1", "implicit"), (".word K * 2, -K", None), (".byte K / 2, K % 3", None),
     ("jmp @#K + 2", None), ("mov #K << 1, @#K >> 1", None), (".blkb K / 2", None), (".blkw K & 3", None), ("tst K", None), ("jsr pc, K", None),
     (".rad50 /A/<K>", None),
+    # the constant as a register number, in every addressing form
+    ("mov %<K & 3>, r1", None), ("clr (%<K & 3>)", None), ("clr (%<K & 3>)+", None), ("clr -(%<K & 3>)", None), ("clr @(%<K & 3>)+", None),
+    ("clr @-(%<K & 3>)", None), ("mov 2(%<K & 3>), r0", None), ("mov @4(%<K & 3>), r0", None), ("clr @%<K & 3>", None),
+    ("mov -(%<K & 3>), (%<K & 1>)+", None), ("ldf (%<K & 3>)+, ac1", None), ("mul -(%<K & 3>), r1", None), ("jsr %<K & 7>, K", None),
 ]
 
 
